@@ -142,10 +142,5 @@ def main(run: core.Run) -> None:
     run.assumptions = ['reference rules R1-R3 read "same indentation" as same indentation class (column 0 vs indented)',
                        'which repeated field hosts a standalone comment is not compared']
     run.run_cases(run_case, items, 'layouts', chunk=300)
-    bfs_cases = []
-    for t in docs.texts(docs.L_COMMENT, nb, nmin=1, variants=(('lf', True),)):
-        for mode in (True, False):
-            root = docs.try_parse(t, M.File, mode)
-            if root is not None and any(isinstance(x, M.BlockComment) for x in root.token_store):
-                bfs_cases.append({'text': t, 'mode': mode})
+    bfs_cases = claims.bfs_corpus(nb, with_txn4=(tier == 'quick'))
     claims.claims_bfs(run, bfs_cases, CLAUSES, 'claim-call BFS')
